@@ -62,7 +62,8 @@ class ListGeomArray(Sort):
         assumptions += [off >= 0, ln >= 0]
         rep = SRecord('ListArray', {'offset': off, 'length': ln, 'bufs': STuple(bufs)})
         rep.fields['m:buffers'] = lambda eng, s, fr, obj, args, kwargs, lineno: obj.fields['bufs']
-        me = SRecord(self.cls, {'listarray': rep, 'data': rep, 'numpy_dtype': DType('float64'), '_sindex': NONE,
+        vals.base.meta['coordinate_dtype'] = True
+        me = SRecord(self.cls, {'listarray': rep, 'data': rep, 'numpy_dtype': DType('float64', coordinate=True), '_sindex': NONE,
                                 '_element_len': SInt(2)})
         return me, assumptions
 
